@@ -116,6 +116,12 @@ func buildWorld(s *Sim, ws *WorldSpec) *World {
 			srv.DB.put(d.ID, mustParseJ(d.Doc))
 		}
 		switch {
+		case sp.Custom != nil:
+			fa := pub.NewCustomActor(&ScriptDelegate{s: s, srv: srv}, sp.Social, sp.Federating, srv.Clock)
+			srv.Plain = fa
+			if sp.Federating {
+				srv.Actor = fa
+			}
 		case sp.Social && sp.Federating:
 			srv.Actor = pub.NewActor(srv.App, srv.App, fedProto{srv.App}, srv.DB, srv.Clock)
 			srv.Plain = srv.Actor
